@@ -219,6 +219,8 @@ prop('C10',
            'non-trivial = identity different from the zero value, or input >= workers >= 2; distinct = different canonical scenario'),
      assumptions=E3_ASSUME + ['integer overflow wraps (still commutative and associative); product inputs are distinct primes with at most 15 elements'],
      parts=[
+         dict(name='ref-carrier', engine='E4', pkg='pipes', test='TestC10Ref',
+              quick=dict(cases=4000, shards=1), thorough=dict(cases=100000, shards=8, timeout=3000)),
          dict(name='gated', engine='E4', pkg='pipes', test='TestC10',
               quick=dict(cases=8000, shards=4), thorough=dict(cases=250000, shards=16, timeout=3000)),
          dict(name='race', engine='E4', pkg='pipes', test='TestC10Race', race=True, replay_test='TestReplayFree', env=dict(GORACE='halt_on_error=1'),
